@@ -29,8 +29,8 @@ type Ctx struct {
 	Toolchain string
 	Tier      string
 
-	cg        *callgraph.Graph
-	cha       *callgraph.Graph
+	cg            *callgraph.Graph
+	cha           *callgraph.Graph
 	fnInfo        map[*ssa.Function]*fnInfo
 	callersOf     map[*ssa.Function][]ssa.CallInstruction
 	allFuncs      map[*ssa.Function]bool
